@@ -5,6 +5,7 @@ import EosProofs.Lemmas.CalcRound
 import EosProofs.Lemmas.CalcOps
 import EosProofs.Lemmas.CalcWorld
 import EosProofs.Lemmas.AffectsTable
+import EosProofs.Lemmas.ResistTable
 /-! # C02 — attribute values follow the dogma modification rules exactly
 
 Property theorems only.  `Eos.Calc.calculate` / `Eos.World.valueOf` are the hand-written
@@ -706,6 +707,48 @@ theorem affects_table_complete :
     projectedCases.countP (·.modified) = projectedModifiedCount ∧
     projectedCases.countP (·.valid) = projectedValidCount :=
   ⟨local_counts.1, local_counts.2.1, local_counts.2.2, proj_counts.1, proj_counts.2.1, proj_counts.2.2⟩
+
+/-! ### Resistance: which carrier's attribute scales a projected modification
+
+`EosGen.ResistTable` is regenerated on every run by `tools/gen/resist_table.py`: a projected effect with a
+resistance attribute (present on the carriers / absent / id 0 / no id) x projector class x modifier filter x target
+x every item of the world; every type has its own resistance value, so the observed factor names the item whose
+attribute the real code read (`get_modifications`: `effect.resist_attr_id`, `affectee._solsys_carrier`).  `obs` /
+`obsInc` are `none` (not modified) or `some r` (modified, factor `r`) from scratch / incrementally.  By definition
+`specResist c = if affectsProjected c.cfg c.a c.m c.t c.x c.tx then some (resistOf c.cfg rd c.e c.x) else some none`
+(`none` if `resistOf` errs), with `rd = baseReader c.u c.cfg` reading type values (nothing modifies the source and
+resistance attributes in these worlds). -/
+
+open EosGen.ResistTable (resistCases resistCaseCount resistModifiedCount resistValidCount)
+
+/-- "resist": on EVERY case of the regenerated table — modifiers the library's validation accepts and the
+`owner_skillrq` ones it rejects for domain target alike — selection and resistance factor of the specification
+(`affectsProjected`, `resistOf`: the ship for items aboard it, a drone / fighter squad for itself, none otherwise;
+1 without resistance attribute or value) are what the real code applied, under both observations. -/
+theorem resist_table_matches_spec :
+    ∀ c ∈ resistCases, specResist c = some c.obs ∧ specResist c = some c.obsInc :=
+  fun c hc => ⟨(resist_cases_good c hc).2.1, (resist_cases_good c hc).2.2.1⟩
+
+/-- `gather` itself (through `runningEffects`, `projectionTargets`, `affectsProjected`, `resistOf` and `mk`): for
+every case the specification gathers, for the targeted attribute of the item, nothing — or exactly one
+modification with the modifier's operator, the projector's source value and the observed resistance factor. -/
+theorem resist_table_gather_matches :
+    ∀ c ∈ resistCases, ∃ v, baseReader c.u c.cfg c.a c.m.srcAttr = .ok v ∧
+      gatherOutcome (gather c.u c.cfg specImmune (baseReader c.u c.cfg) c.x c.tx c.m.tgtAttr) c.m.op v =
+        some c.obs := by
+  intro c hc
+  have h := (resist_cases_good c hc).2.2.2
+  unfold specGatherResist at h
+  split at h
+  · rename_i v hv
+    exact ⟨v, hv, h⟩
+  · cases h
+
+/-- Nothing was lost between the generator and the theorems: case count, "modified" count (non-vacuity) and the
+number of cases whose modifier the library's validation accepts. -/
+theorem resist_table_complete :
+    resistCases.length = resistCaseCount ∧ resistCases.countP (·.obs.isSome) = resistModifiedCount ∧
+    resistCases.countP (·.valid) = resistValidCount := resist_counts
 
 end affectsTable
 
